@@ -46,8 +46,15 @@ class Construction:
     first_tag = len(strings)
     for i in range(len(strings)-1, 0, -1):
       try:
-        self._initialize_tag(*(gfapy.Field._parse_gfa_tag(strings[i])))
+        tag = gfapy.Field._parse_gfa_tag(strings[i])
       except:
+        break
+      try:
+        self._initialize_tag(*tag)
+      except:
+        # (the field is not a tag: its name remains free for a tag)
+        if tag[0] not in self._data:
+          self._datatype.pop(tag[0], None)
         break
       first_tag = i
     # tags were collected from the last to the first: restore the input order
